@@ -183,6 +183,33 @@ impl Lattice {
     }
 }
 
+#[cfg(vibrato_verif)]
+impl Lattice {
+    pub(crate) fn verif_dump(&self) -> crate::verif::VerifLattice {
+        let conv = |end: usize, n: &Node| crate::verif::VerifNode {
+            end,
+            start_node: n.start_node,
+            start_word: n.start_word,
+            lex_type: n.lex_type,
+            word_id: n.word_id,
+            left_id: n.left_id,
+            right_id: n.right_id,
+            min_idx: n.min_idx,
+            min_cost: n.min_cost,
+        };
+        let mut ends = vec![];
+        for (end, nodes) in self.ends.iter().enumerate().take(self.len_char + 1) {
+            let skip = usize::from(end == 0); // BOS
+            ends.push(nodes.iter().skip(skip).map(|n| conv(end, n)).collect());
+        }
+        crate::verif::VerifLattice {
+            len_char: self.len_char,
+            ends,
+            eos: self.eos.as_ref().map(|n| conv(self.len_char, n)),
+        }
+    }
+}
+
 impl std::fmt::Debug for Lattice {
     fn fmt(&self, f: &mut std::fmt::Formatter<'_>) -> std::fmt::Result {
         writeln!(f, "Lattice {{ eos: {:?}, ends: [", &self.eos)?;
